@@ -33,6 +33,9 @@ type c17Case struct {
 	Lines        []string `json:"lines"`  // plain ASCII "name value ts"
 	PauseEvery   int      `json:"pause_every"`
 	Shutdown     bool     `json:"shutdown"` // call Shutdown at the end and report whether it returned
+	// every line is handed over by a goroutine of its own (started in order, 1 ms apart), and Shutdown is called while
+	// the later ones are still blocked on the full buffer of a stalled worker (blocking mode)
+	ShutdownWhileBlocked bool `json:"shutdown_while_blocked,omitempty"`
 }
 
 type gnPost struct {
@@ -139,7 +142,18 @@ func runC17(raw json.RawMessage) (interface{}, error) {
 	drops := stats.Counter("dest=" + util.AddrToPath(cfg.Addr) + ".unit=Metric.action=drop.reason=queue_full")
 	d0 := drops.Count()
 	maxDispatch := time.Duration(0)
-	for i, l := range c.Lines {
+	var dwg sync.WaitGroup
+	lines := c.Lines
+	if c.ShutdownWhileBlocked {
+		for _, l := range c.Lines {
+			dwg.Add(1)
+			go func(l string) { defer dwg.Done(); r.Dispatch([]byte(l)) }(l)
+			time.Sleep(time.Millisecond)
+		}
+		time.Sleep(30 * time.Millisecond)
+		lines = nil
+	}
+	for i, l := range lines {
 		t0 := time.Now()
 		r.Dispatch([]byte(l))
 		if d := time.Since(t0); d > maxDispatch {
@@ -157,6 +171,16 @@ func runC17(raw json.RawMessage) (interface{}, error) {
 		case <-done:
 			returned = true
 		case <-time.After(8 * time.Second):
+		}
+		if c.ShutdownWhileBlocked {
+			// every hand-over that was waiting must have been taken in by the draining worker
+			back := make(chan struct{})
+			go func() { dwg.Wait(); close(back) }()
+			select {
+			case <-back:
+			case <-time.After(3 * time.Second):
+				returned = false
+			}
 		}
 	} else {
 		// no shutdown: wait for the periodic flushes to carry everything out
